@@ -103,8 +103,7 @@ func newSession(svr *Server, conn net.Conn) *Session {
 		consumer: defaultConsumer,
 	}
 
-	if wsc, ok := conn.(websocket.Conn); ok { // 如果是WebSocket，有http进行验证
-		session.authMode = auth.NoneAuth
+	if wsc, ok := conn.(websocket.Conn); ok { // 如果是WebSocket，身份已由http层验证(见 rtspAuthMode)
 		session.wsconn = wsc
 		session.path = wsc.Path()
 		session.user = auth.Get(wsc.Username())
@@ -465,7 +464,27 @@ func (s *Session) onPlay(resp *Response, req *Request) (err error) {
 	return
 }
 
+// rtspAuthMode rtsp 层的身份验证模式。
+// WebSocket 连接的身份已由 http 层(token)验证，不再进行 Basic/Digest 验证；
+// 但这只免除"身份验证"，权限仍需按该用户当前的权限检查(见 checkPermission)。
+func (s *Session) rtspAuthMode() auth.Mode {
+	if s.wsconn != nil {
+		return auth.NoneAuth
+	}
+	return s.authMode
+}
+
 func (s *Session) checkPermission(right auth.AccessRight) bool {
+	if s.wsconn != nil {
+		if !config.Auth() { // 未启用媒体流访问验证
+			return true
+		}
+		// http 层只验证了接入路径的拉流权限；会话中可以通过 ANNOUNCE 改变路径或改为推流，
+		// 因此每次都要用 http 层验证过的用户、按当前保存的权限检查
+		user := auth.Get(s.wsconn.Username())
+		return user != nil && user.ValidatePermission(s.path, right)
+	}
+
 	if s.authMode == auth.NoneAuth {
 		return true
 	}
@@ -478,7 +497,7 @@ func (s *Session) checkPermission(right auth.AccessRight) bool {
 }
 
 func (s *Session) checkAuth(r *Request) (user *auth.User, err error) {
-	switch s.authMode {
+	switch s.rtspAuthMode() {
 	case auth.BasicAuth:
 		username, password, has := r.BasicAuth()
 		if !has {
@@ -611,7 +630,7 @@ func (s *Session) newResponse(code int, req *Request) *Response {
 	resp.Header.Set(FieldSession, s.lsession)
 
 	// 根据认证模式增加认证所需的字段
-	switch s.authMode {
+	switch s.rtspAuthMode() {
 	case auth.BasicAuth:
 		resp.SetBasicAuth(realm)
 	case auth.DigestAuth:
